@@ -23,3 +23,14 @@ fn c16_cast_type_generics_is_one_argument() {
     assert_eq!(format!("{:>4}", Cast(7)), "   7");
 }
 
+
+// C06 sib:field:pretty-value-fresh-format_args -- `{:#x?}` on a tuple struct keeps the hex flag in std
+#[derive(derive_more::Debug)]
+struct Tup(u8);
+#[derive(Debug)]
+struct StdTup(u8);
+
+#[test]
+fn c06_pretty_tuple_keeps_hex_flag() {
+    assert_eq!(format!("{:#x?}", Tup(255)), format!("{:#x?}", StdTup(255)).replace("StdTup", "Tup"));
+}
